@@ -85,6 +85,17 @@ impl<'a> PrettyPrinter<'a> {
 
     /// In math mode, we have `$fun(1, 2; 3, 4)$ == $fun(#(1, 2), #(3, 4))$`.
     pub(super) fn convert_array(&'a self, ctx: Context, array: Array<'a>) -> ArenaDoc<'a> {
+        self.convert_array_impl(ctx, array, false)
+    }
+
+    /// `before_semicolon`: the array is a row of 2D math args followed by `;`,
+    /// where an added trailing comma would become an empty cell.
+    pub(super) fn convert_array_impl(
+        &'a self,
+        ctx: Context,
+        array: Array<'a>,
+        before_semicolon: bool,
+    ) -> ArenaDoc<'a> {
         // Whether the array has parens.
         // This is also used to determine whether we need to add a trailing comma.
         // Note that we should not strip trailing commas in math.
@@ -110,6 +121,7 @@ impl<'a> PrettyPrinter<'a> {
             .print_doc(ListStyle {
                 add_trailing_sep_single: is_explicit,
                 add_trailing_sep_always: ends_with_comma,
+                no_trailing_sep: before_semicolon && !ends_with_comma,
                 delim: if is_explicit { ("(", ")") } else { ("", "") },
                 tight_delim: !is_explicit,
                 no_indent: !is_explicit,
